@@ -67,8 +67,8 @@ deriving Repr, DecidableEq
 /-- `uint64(time.Since(ref)) / 10000` on a duration in ns -/
 def sigTicks (sinceRefNs : UInt64) : UInt64 := sinceRefNs / UInt64.ofNat Gen.sigTickNs
 
-/-- streamwriter.Writer.writeInner (as the unchanged tree: the counter is incremented before validation).
-    `fixedSeq = true` models the repaired code (increment only when the write is emitted). -/
+/-- streamwriter.Writer.writeInner (after `fix: a refused write must not consume a sequence number`:
+    the counter is incremented only when FrameWriter.Write succeeded). -/
 def swWrite (H : Bytes → Bytes) (d : WDialect) (c : SWCfg) (st : SWState) (sinceRefNs : UInt64) (m : Msg) :
     SWState × Except WErr Bytes :=
   let signed := c.key.isSome
@@ -78,16 +78,16 @@ def swWrite (H : Bytes → Bytes) (d : WDialect) (c : SWCfg) (st : SWState) (sin
                sys := c.sysId, comp := c.compId, msg := m, crc := 0 }
   let st1 : SWState := { nextSeq := st.nextSeq + 1 }
   match d with
-  | none => (st1, .error .nilDialect)
+  | none => (st, .error .nilDialect)
   | some dd =>
     match dd m.id with
-    | none => (st1, .error .notInDialect)
+    | none => (st, .error .notInDialect)
     | some codec =>
       match encodeInFrame d f0 with
-      | .error e => (st1, .error e)
+      | .error e => (st, .error e)
       | .ok f1 =>
         match f1.genChecksum codec.crcExtra with
-        | .error _ => (st1, .error .panic)
+        | .error _ => (st, .error .panic)
         | .ok sum =>
           let f2 : Frame := match f1 with
             | .v1 g => .v1 { g with crc := sum }
@@ -101,7 +101,7 @@ def swWrite (H : Bytes → Bytes) (d : WDialect) (c : SWCfg) (st : SWState) (sin
                 | .ok s => .v2 { g with sig := some s }
                 | .error _ => .v2 g
           match frameWrite d f2 with
-          | .error e => (st1, .error e)
+          | .error e => (st, .error e)
           | .ok (bs, _) => (st1, .ok bs)
 
 /-! ### Node.FixFrame -/
